@@ -200,95 +200,235 @@ def exec_case(job):
     return ev
 
 
-def selftest_binding(cases):
-    """an encoder that ignores the level when deciding the extended-transform flags must be flagged"""
-    import vc2_conformance.encoder.pictures as pic
+def _wire(evs):
+    return [dict((k, v) for k, v in e.items() if k != "_case") for e in evs]
 
-    victims = [c for c in cases if c["cfg"]["name"] == "hq_fragments" and any(thaw(r)["key"] == "asym_transform_index_flag" and thaw(r)["kind"] == "true" for r in c["restr"]) and c["pattern"] == "any"][:2]
-    if not victims:
+
+def selftest_binding(cases):
+    """Broken encoders (in-process, restored in `finally`) must be flagged through the same pipeline, one per class
+    of level definition: (full) extended-transform flags decided without asking the level; (real) the level table
+    filtered without the base video format, so that a header is assembled from different columns of a multi-column
+    level; (geom) the derived value slices_have_same_dimensions computed without regard to the coding mode.
+    Then a corrupted recorded field must be rejected by the trace spec."""
+    import vc2_conformance.codec_features as cf
+    import vc2_conformance.encoder.pictures as pic
+    import vc2_conformance.encoder.sequence_header as sh
+
+    def restricted(c, key, kind):
+        return any(thaw(r)["key"] == key and thaw(r)["kind"] == kind for r in c["restr"])
+
+    v_full = [c for c in cases if c["class"] == "full" and c["cfg"]["name"] == "hq_fragments" and restricted(c, "asym_transform_index_flag", "true") and c["pattern"] == "any"][:2]
+    if not v_full:
         raise RuntimeError("binding self-test: no table forcing asym_transform_index_flag on a version-3 configuration")
-    orig = pic.decide_extended_transform_flag
-    pic.decide_extended_transform_flag = lambda codec_features, flag_name, required: bool(required)
+    # non-admitted formats of a level with several columns for the same coding mode
+    v_real = [c for c in cases if c["class"] == "real" and c["design"] == "unsat" and c["cfg"]["level"] == 3 and c["cfg"]["pcm"] == 0 and c["cfg"]["vp"]["source_sampling"] == 1 and c["pert"] == "none"]
+    if not v_real:
+        raise RuntimeError("binding self-test: no non-admitted interlaced-as-frames format of a multi-column real level")
+    g_all = [c for c in cases if c["class"] == "geom" and c["mode_sensitive"] and restricted(c, "slices_have_same_dimensions", "except") and len(c["restr"]) == 1]
+    v_geom = [c for c in g_all if c["cfg"]["pcm"] == c["cfg"]["vp"]["source_sampling"]][:3] + [c for c in g_all if c["cfg"]["pcm"] != c["cfg"]["vp"]["source_sampling"]][:3]
+    if not v_geom:
+        raise RuntimeError("binding self-test: no geometry table pinning slices_have_same_dimensions with disagreeing coding mode / source sampling")
+
+    orig_flag = pic.decide_extended_transform_flag
+    orig_filter = sh.filter_constraint_table
+    orig_same = cf.slices_have_same_dimensions
     try:
-        evs = [exec_case((i + 1, c)) for i, c in enumerate(victims)]
+        pic.decide_extended_transform_flag = lambda codec_features, flag_name, required: bool(required)
+        e_full = [exec_case((i + 1, c)) for i, c in enumerate(v_full)]
+        pic.decide_extended_transform_flag = orig_flag
+        sh.filter_constraint_table = lambda table, values: orig_filter(table, dict((k, v) for k, v in values.items() if k != "base_video_format"))
+        e_real = [exec_case((100 + i, c)) for i, c in enumerate(v_real)]
+        sh.filter_constraint_table = orig_filter
+        cf.slices_have_same_dimensions = lambda state: not orig_same(state)
+        e_geom = [exec_case((200 + i, c)) for i, c in enumerate(v_geom)]
     finally:
-        pic.decide_extended_transform_flag = orig
-    for e, c in zip(evs, victims):
-        e["_case"] = c
-    bad, _ = c15.validate_chunk(("LevelTablesTrace", [dict((k, v) for k, v in e.items() if k != "_case") for e in evs], TRACE_CFG, []))
-    hit = sum(1 for b in bad if b["alarm"] and b["clause"] == "ProducedButRejected")
-    if hit == 0:
-        raise RuntimeError("binding self-test failed: an encoder ignoring the level for asym_transform_index_flag was not flagged")
-    good = exec_case((1, victims[0]))
+        pic.decide_extended_transform_flag = orig_flag
+        sh.filter_constraint_table = orig_filter
+        cf.slices_have_same_dimensions = orig_same
+    good = exec_case((300, v_full[0]))
     if good["outcome"] != "produced" or not good["accepted"]:
         raise RuntimeError("binding self-test: reference table not produced+accepted (%r)" % (good,))
     corrupt = dict(good, accepted=False, vexc="ValueNotAllowedInLevel", vkey="asym_transform_index_flag", vvalue=0)
-    bad, _ = c15.validate_chunk(("LevelTablesTrace", [corrupt], TRACE_CFG, []))
-    if not any(b["alarm"] and b["clause"] == "ProducedButRejected" for b in bad):
-        raise RuntimeError("trace binding self-test failed: corrupted verdict accepted")
-    return {"mutant": "decide_extended_transform_flag ignores the level table (in-process, restored)", "tables_flagging_it": hit, "corrupted_field": "accepted=false on a produced+accepted event -> ProducedButRejected"}
+    evs = e_full + e_real + e_geom + [corrupt]
+    bad, _ = c15.validate_chunk(("LevelTablesTrace", _wire(evs), TRACE_CFG, []))
+    hits = {}
+    for b in bad:
+        if b["alarm"] and b["clause"] == "ProducedButRejected":
+            k = "corrupt" if b["line"] == len(evs) else evs[b["line"] - 1]["class"]
+            hits[k] = hits.get(k, 0) + 1
+    for k, what in (("full", "an encoder ignoring the level for asym_transform_index_flag"), ("real", "an encoder filtering the real table without the base video format"), ("geom", "an encoder deriving slices_have_same_dimensions wrongly"), ("corrupt", "a corrupted verdict field")):
+        if not hits.get(k):
+            raise RuntimeError("binding self-test failed: %s was not flagged (%r)" % (what, hits))
+    return {
+        "mutants": "in-process, restored: (full) decide_extended_transform_flag ignores the level table; (real) iter_sequence_headers filters the real table without base_video_format; (geom) codec_features_to_trivial_level_constraints gets slices_have_same_dimensions negated",
+        "tables_flagging_them": dict((k, v) for k, v in hits.items() if k != "corrupt"),
+        "corrupted_field": "accepted=false on a produced+accepted event -> ProducedButRejected",
+    }
+
+
+def _cpu():
+    t = os.times()
+    return t.user + t.system + t.children_user + t.children_system
 
 
 def run(ctx):
+    t0 = time.time()
+    phases = {}
+
+    def phase(name):
+        phases[name] = round(time.time() - t0 - sum(phases.values()), 1)
+
     scratch = tlc.mkscratch("gen")
     tables = c15.gen_tables(scratch)
     mr = ctx.pick(1, 2)
-    res = tlc.run("LevelTables", c15.read_cfg("LevelTables.cfg", MaxRestr=mr), dump=True, coverage=False, extra_files=[tables], timeout=3000)
+    wide = ctx.pick("FALSE", "TRUE")
+    sim_future = None
+    nsim = 2500
+    if mr == 1:
+        # pairs of restricted keys: random walks of the same machine with MaxRestr = 2 (class "full" only: the
+        # walks would otherwise almost all end in the much more numerous real-table configurations); one worker,
+        # started now so that it runs alongside the exhaustive exploration
+        from concurrent.futures import ThreadPoolExecutor
+
+        pool = ThreadPoolExecutor(1)
+        sim_future = pool.submit(tlc.run, "LevelTables", c15.read_cfg("LevelTables.cfg", MaxRestr=2, Modes='{"full"}'), simulate=nsim, depth=DONE + 1, seed=ctx.seed, workers=1, coverage=False, extra_files=[tables], timeout=3000)
+        pool.shutdown(wait=False)
+    res = tlc.run("LevelTables", c15.read_cfg("LevelTables.cfg", MaxRestr=mr, Wide=wide), dump=True, coverage=False, extra_files=[tables], timeout=3000)
+    phase("tlc_exhaustive")
     cases, per_stage = c15.final_states(res.dump_path, DONE)
-    acts = ["Init", "ChooseCfg", "ChooseFirst", "ChooseSecond", "ChoosePattern"]
-    res.coverage = dict((acts[s - 1], [n, n]) for s, n in sorted(per_stage.items()) if s >= 2)
-    ctx.add_tlc(res, "exhaustive table machine", {"MaxRestr": mr, "configurations": 6})
+    by_class = {}
+    for c in cases:
+        by_class.setdefault(c["class"], []).append(c)
+    res.coverage = {
+        "ChooseCfg+ChooseGeom": [per_stage.get(2, 0)] * 2,
+        "ChooseFirst": [per_stage.get(3, 0)] * 2,
+        "ChooseSecond": [per_stage.get(4, 0)] * 2,
+        "ChoosePattern": [len(cases) - len(by_class.get("real", []))] * 2,
+        "ChooseReal": [len(by_class.get("real", []))] * 2,
+    }
+    ctx.add_tlc(res, "exhaustive table machine", {"MaxRestr": mr, "Modes": ["full", "geom", "real"], "Wide": wide, "configurations": {"full": 6, "geom": len(set(repr(c["cfg"]) for c in by_class.get("geom", []))), "real": len(by_class.get("real", []))}})
     rnd = random.Random(ctx.seed)
     singles = [c for c in cases if len(c["restr"]) == 1]
     pairs = [c for c in cases if len(c["restr"]) == 2]
+    reals = by_class.get("real", [])
+    phase("parse_dump")
     if mr == 1:
-        # pairs of restricted keys: random walks of the same machine with MaxRestr = 2
-        nsim = 2500
-        sim = tlc.run("LevelTables", c15.read_cfg("LevelTables.cfg", MaxRestr=2), simulate=nsim, depth=DONE + 1, seed=ctx.seed, workers=1, coverage=False, extra_files=[tables], timeout=3000)
+        sim = sim_future.result()
         seen = set()
         for c in c15.sim_finals(sim.sim_dir, DONE):
             k = repr(sorted((thaw(r)["key"], thaw(r)["kind"]) for r in c["restr"])) + c["cfg"]["name"] + c["pattern"]
             if len(c["restr"]) == 2 and k not in seen:
                 seen.add(k)
                 pairs.append(c)
-        pair_note = "%d distinct pairs from %d TLC -simulate walks (MaxRestr=2)" % (len(pairs), nsim)
+        pair_note = "%d distinct pairs from %d TLC -simulate walks (MaxRestr=2, class full)" % (len(pairs), nsim)
     else:
         rnd.shuffle(pairs)
         npairs = len(pairs)
         pairs = pairs[:24000]
         pair_note = "seeded sample of %d of the %d pairs of the exhaustively explored model" % (len(pairs), npairs)
-    todo = singles + pairs
+    phase("tlc_simulate")
+    todo = singles + pairs + reals
     jobs = [(i + 1, c) for i, c in enumerate(todo)]
     events = common.pmap(exec_case, jobs)
     for e, c in zip(events, todo):
         e["_case"] = c
-    wire = [dict((k, v) for k, v in e.items() if k != "_case") for e in events]
-    alarms, dis, ress = judge_events(wire, events, ctx.pick(4, 8))
+    phase("implementation")
+    wire = _wire(events)
+    alarms, dis, ress = judge_events(wire, events, ctx.pick(6, 8))
+    phase("trace_validation")
     for r in ress:
         ctx.tlc_runs.append(dict(r.summary(), name="trace validation chunk (LevelTablesTrace)"))
     ctx.coverage["states"] += sum(r.distinct for r in ress)
     ctx.coverage["transitions"] += sum(r.generated for r in ress)
     for sig, what, case in alarms:
         ctx.violation(sig, what, case)
-    produced = sum(1 for e in events if e["outcome"] == "produced")
-    accepted = sum(1 for e in events if e["outcome"] == "produced" and e["accepted"])
-    unsat = sum(1 for e in events if e["outcome"] == "unsat")
-    if accepted == 0 or unsat == 0:
-        raise RuntimeError("vacuous: produced-and-accepted=%d unsat=%d" % (accepted, unsat))
-    st = selftest_binding(cases)
+
+    # ---- vacuity, per class of level definition
+    def tally(evs):
+        return {
+            "tables": len(evs),
+            "produced": sum(1 for e in evs if e["outcome"] == "produced"),
+            "produced_and_accepted": sum(1 for e in evs if e["outcome"] == "produced" and e["accepted"]),
+            "unsat": sum(1 for e in evs if e["outcome"] == "unsat"),
+        }
+
+    # (the coverage of the ENUMERATION is judged on the model's predictions, so that a defective tree yields a
+    # verdict and not a machinery failure; of the implementation only "the antecedent held at all" is required)
+    per_class = dict((k, tally([e for e in events if e["class"] == k])) for k in ("full", "geom", "real"))
+    for k, t in per_class.items():
+        t["design_produced"] = sum(1 for e in events if e["class"] == k and e["design"] == "produced")
+        t["design_unsat"] = sum(1 for e in events if e["class"] == k and e["design"] == "unsat")
+        if t["produced"] == 0 or t["design_produced"] == 0 or t["design_unsat"] == 0:
+            raise RuntimeError("vacuous (class %s): %r" % (k, t))
+    produced = sum(t["produced"] for t in per_class.values())
+    accepted = sum(t["produced_and_accepted"] for t in per_class.values())
+    unsat = sum(t["unsat"] for t in per_class.values())
+    # real table: formats the level does not admit, for levels with several columns per coding mode, in both
+    # coding modes and both source samplings; and admitted ones (the antecedent holds) for every level
+    real_levels = {}
+    for e in events:
+        if e["class"] == "real":
+            c = e["_case"]
+            d = real_levels.setdefault(c["cfg"]["level"], {"admitted": 0, "not_admitted": 0, "not_admitted_by_pcm_ss": {}})
+            if c["design"] == "produced":
+                d["admitted"] += 1
+            else:
+                d["not_admitted"] += 1
+                k = "pcm%d_ss%d" % (c["cfg"]["pcm"], c["cfg"]["vp"]["source_sampling"])
+                d["not_admitted_by_pcm_ss"][k] = d["not_admitted_by_pcm_ss"].get(k, 0) + 1
+    multi = [lv for lv in real_levels if sum(1 for col in c15.level_columns(_real_table()) if col["level"]["rs"] == {(lv, lv)}) > 1]
+    for lv, d in real_levels.items():
+        if d["admitted"] == 0 or (lv != 0 and len(d["not_admitted_by_pcm_ss"]) < 4):
+            raise RuntimeError("vacuous (real level %d): %r" % (lv, d))
+    if not multi:
+        raise RuntimeError("vacuous: the real table has no multi-column level among %r" % sorted(real_levels))
+    # geometry: tables pinning slices_have_same_dimensions on coding-mode-sensitive geometries with disagreeing
+    # coding mode / source sampling, in both directions of the disagreement
+    sens = {}
+    for e in events:
+        c = e["_case"]
+        if e["class"] == "geom" and c["mode_sensitive"] and any(r["key"] == "slices_have_same_dimensions" for r in e["restr"]):
+            k = "pcm%d_ss%d" % (c["cfg"]["pcm"], c["cfg"]["vp"]["source_sampling"])
+            sens.setdefault(k, {"design_produced": 0, "design_unsat": 0, "produced_and_accepted": 0, "unsat": 0})
+            sens[k]["design_" + c["design"]] += 1
+            if e["outcome"] == "produced" and e["accepted"]:
+                sens[k]["produced_and_accepted"] += 1
+            if e["outcome"] == "unsat":
+                sens[k]["unsat"] += 1
+    for k in ("pcm0_ss1", "pcm1_ss0"):
+        if not sens.get(k) or not sens[k]["design_produced"] or not sens[k]["design_unsat"]:
+            raise RuntimeError("vacuous (geometry, %s): %r" % (k, sens))
+    try:
+        st = selftest_binding(cases)
+    except RuntimeError as ex:
+        # On a tree that already falsifies the property the in-process mutants are applied on top of a defective
+        # encoder and need not behave as designed; the fresh violations of this very run are then the evidence
+        # that the pipeline flags a broken encoder.  Without any fresh violation it is a machinery failure.
+        if not any("|ProducedButRejected|" in sig for sig, _, _ in alarms):
+            raise
+        st = {"not_completed": str(ex), "note": "this run reports fresh violations (the binding flags this tree); the in-process mutants were applied on top of it"}
+    phase("selftest")
     by_exc = {}
     for e in events:
         if e["outcome"] == "unsat":
             by_exc[e["exc"]] = by_exc.get(e["exc"], 0) + 1
+    pick = [0, len(singles) // 2]
+    pick += [i for i, e in enumerate(events) if e["class"] == "geom"][:1]
+    pick += [i for i, e in enumerate(events) if e["class"] == "real" and e["outcome"] == "produced" and e["level"] == 3][:1]
+    pick += [i for i, e in enumerate(events) if e["class"] == "real" and e["outcome"] == "unsat" and e["level"] == 3][:1]
     ctx.coverage.update(
         {
             "traces_validated_against_impl": len(events),
             "evaluations": len(events),
-            "distinct_nontrivial": len(set(repr((e["cfg"], e["restr"], e["pattern"])) for e in events if e["outcome"] == "produced")),
-            "rule": "one evaluation = one synthetic level definition (completed choice of LevelTables.tla) installed in the real library, encoder run, stream validated; all single restrictions x 6 configurations x 7 ordering patterns, plus %s; non-trivial = the encoder produced a sequence (the antecedent of the property holds)" % pair_note,
+            "distinct_nontrivial": len(set(repr((e["cfg"], e["level"], e["restr"], e["pattern"])) for e in events if e["outcome"] == "produced")),
+            "rule": "one evaluation = one level definition (completed choice of LevelTables.tla) under which the real encoder is run and, if it produced a sequence, the real validator: (full) all single restrictions x 6 configurations x 7 ordering patterns, plus %s; (geom) %d geometry configurations (geometry x coding mode x source sampling) x every derived key x {only, except}; (real) the real level table x one feature set per level x 23 base formats x source sampling x coding mode x perturbation (admitted or not; header-only sequences); non-trivial = the encoder produced a sequence (the antecedent of the property holds)" % (pair_note, len(set(e["cfg"] for e in events if e["class"] == "geom"))),
             "exhaustive": True,
-            "exhaustive_note": "the TLC model is explored completely for MaxRestr=%d; every single-restriction table is executed against the implementation; pairs: %s" % (mr, pair_note),
-            "tables": {"single": len(singles), "pairs": len(pairs)},
+            "exhaustive_note": "the TLC model is explored completely for MaxRestr=%d, Wide=%s; every single-restriction table and every real-table configuration is executed against the implementation; pairs: %s" % (mr, wide, pair_note),
+            "tables": {"single": len(singles), "pairs": len(pairs), "real_table_configurations": len(reals)},
+            "per_class": per_class,
+            "real_levels": dict((str(k), v) for k, v in sorted(real_levels.items())),
+            "real_multi_column_levels": sorted(multi),
+            "geometry_mode_sensitive_same_dimension_tables": sens,
             "produced": produced,
             "produced_and_accepted": accepted,
             "unsat": unsat,
@@ -298,15 +438,24 @@ def run(ctx):
             "spec_disagreements_by_clause": dict((k, len(v)) for k, v in dis.items()),
             "spec_disagreement_examples": dict((k, [{"cfg": events[i - 1]["cfg"], "restr": [(r["key"], r["kind"]) for r in events[i - 1]["restr"]], "pattern": events[i - 1]["pattern"], "outcome": events[i - 1]["outcome"], "exc": events[i - 1]["exc"]} for i in v[:3]]) for k, v in dis.items()),
             "binding_selftest": st,
-            "samples": [dict((k, v) for k, v in events[i].items() if k not in ("_case", "observed")) for i in (0, len(events) // 2, len(events) - 1)],
+            "wall_seconds_by_phase": phases,
+            "cpu_seconds": round(_cpu(), 1),
+            "samples": [dict((k, v) for k, v in events[i].items() if k not in ("_case", "observed")) for i in pick],
         }
     )
     ctx.assumptions += [
-        "the synthetic table has a single column: level {1}, every other key `any` except the restricted ones",
-        "configurations are 8x4 pictures (two per sequence, random 8-bit samples built by the harness, not by picture_generators)",
+        "synthetic tables (classes full, geom) have a single column: level {1}, every other key `any` except the restricted ones",
+        "configurations of classes full / geom are tiny pictures (8x4 .. 16x24; two per sequence, random 8-bit samples built by the harness, not by picture_generators)",
+        "class real: the level table and ordering restrictions of the tree under test, unmodified; the sequence has no pictures (sequence_header end_of_sequence), so only the sequence-header keys of the real table are exercised; levels whose ordering restriction demands a picture after every sequence header (LevelTables!PictureAfterEveryHeader = 64, 65, 66) are left out",
         "ordering patterns are concretised by the driver as symbol_re expressions over the configuration's picture parse code; their satisfiability is assumed as listed in LevelTables!DesignOutcome",
-        "TLC -coverage is not used (it does not terminate on the generated tables module); per-action counts are the number of dumped states per stage",
+        "TLC -coverage is not used (it does not terminate on the generated tables module); per-action counts are the number of dumped states per stage / class",
     ]
+
+
+def _real_table():
+    from vc2_conformance.level_constraints import LEVEL_CONSTRAINTS
+
+    return LEVEL_CONSTRAINTS
 
 
 def judge_events(wire, events, nchunks):
@@ -319,8 +468,9 @@ def judge_events(wire, events, nchunks):
             dis.setdefault(b["clause"], []).append(b["line"])
             continue
         detail = "%s:%s" % (ev["vexc"], ev["vkey"]) if ev["vkey"] else ev.get("vsig", ev["vexc"])
+        table = "the real level %d table" % ev["level"] if ev["class"] == "real" else "%s" % ["%s %s" % (r["key"], r["kind"]) for r in ev["restr"]]
         what = "%s with %s, pattern %s: encoder produced %s but the validator rejected it: %s key=%s value=%s" % (
-            ev["cfg"], ["%s %s" % (r["key"], r["kind"]) for r in ev["restr"]], ev["pattern"], ev["units"], ev["vexc"], ev["vkey"], ev["vvalue"])  # fmt: skip
+            ev["cfg"], table, ev["pattern"], ev["units"], ev["vexc"], ev["vkey"], ev["vvalue"])  # fmt: skip
         alarms.append(("C16|%s|%s" % (b["clause"], detail), what, {"case": ev["_case"]}))
     return alarms, dis, ress
 
